@@ -130,6 +130,9 @@ struct Gate {
 
 fn install_gate() -> Arc<Gate> {
     let g: Arc<Gate> = Default::default();
+    // by default a clean-up task parks before it touches the transaction: it only advances at the
+    // explicit `ya` / `y` steps, never as a side effect of the runtime running for another reason
+    g.hold_before.store(true, Ordering::SeqCst);
     let g2 = g.clone();
     let hook: p2panda_store::sqlite::verif_hooks::Hook = Arc::new(move |name: &'static str| {
         let g = g2.clone();
@@ -169,6 +172,10 @@ enum Kind {
     Quit,
     Panic,
     CancelTask,
+    /// a task sharing the open transaction (no permit) enters a `tx()` query and stays inside it
+    Enter,
+    /// … writes its row and returns
+    Finish(u64),
     Yield,
     /// let the runtime run until the clean-up task is parked before it touches the transaction
     YieldBefore,
@@ -201,7 +208,11 @@ enum Done {
     Hang,
 }
 
+static DB_COUNTER: AtomicU64 = AtomicU64::new(0);
+
 struct Ctl {
+    /// file-backed database with several pooled connections (None: `SqliteStore::temporary()`)
+    file: Option<String>,
     store: SqliteStore, // dropped before the runtime
     rt: tokio::runtime::Runtime,
     base_alive: usize,
@@ -209,14 +220,31 @@ struct Ctl {
 }
 
 impl Ctl {
-    fn new() -> Ctl {
+    fn new(file_db: bool) -> Ctl {
         let rt = tokio::runtime::Builder::new_current_thread().enable_all().build().unwrap();
+        let file = if file_db {
+            let _ = std::fs::create_dir_all("/tmp/famD-c10");
+            Some(format!("/tmp/famD-c10/db-{}-{}.sqlite", std::process::id(), DB_COUNTER.fetch_add(1, Ordering::SeqCst)))
+        } else {
+            None
+        };
         let store = rt.block_on(async {
-            let s = SqliteStore::temporary().await;
+            let s = match &file {
+                None => SqliteStore::temporary().await,
+                Some(path) => p2panda_store::SqliteStoreBuilder::new()
+                    .database_url(&format!("sqlite://{path}"))
+                    .min_connections(1)
+                    .max_connections(4)
+                    .idle_timeout(None)
+                    .max_lifetime(None)
+                    .build()
+                    .await
+                    .expect("file database"),
+            };
             setup_table(&s).await;
             s
         });
-        let mut c = Ctl { store, rt, base_alive: 0, gate: install_gate() };
+        let mut c = Ctl { file, store, rt, base_alive: 0, gate: install_gate() };
         c.quiesce();
         c.base_alive = c.rt.metrics().num_alive_tasks();
         c
@@ -249,6 +277,50 @@ impl Ctl {
                 tokio::time::sleep(Duration::from_micros(200)).await;
             }
         })
+    }
+
+    /// Let the runtime run for a bounded time (used when the clean-up task is expected to be stuck
+    /// behind a query in flight). Returns whether no spawned task is left afterwards.
+    fn run_for(&self, ms: u64) -> bool {
+        let m = self.rt.metrics();
+        let base = self.base_alive;
+        self.rt.block_on(async {
+            let t0 = Instant::now();
+            while t0.elapsed() < Duration::from_millis(ms) {
+                tokio::task::yield_now().await;
+                if m.num_alive_tasks() <= base {
+                    return true;
+                }
+                tokio::time::sleep(Duration::from_micros(200)).await;
+            }
+            m.num_alive_tasks() <= base
+        })
+    }
+
+    fn make_helper(&self, task: u64) -> (Helper, Arc<AtomicBool>) {
+        let st = self.store.clone();
+        let release = Arc::new(AtomicBool::new(false));
+        let entered = Arc::new(AtomicBool::new(false));
+        let n = Arc::new(AtomicU64::new(0));
+        let (rel2, ent2, n2) = (release.clone(), entered.clone(), n.clone());
+        let fut: Fut = Box::pin(async move {
+            let r = st
+                .tx(async |tx| {
+                    ent2.store(true, Ordering::SeqCst);
+                    // stay inside the query until the harness lets go (hand-polled: no waker needed)
+                    std::future::poll_fn(|_| if rel2.load(Ordering::SeqCst) { Poll::Ready(()) } else { Poll::Pending }).await;
+                    sqlx::query("INSERT INTO t(task, n, ord, ref) SELECT ?, ?, COALESCE(MAX(ord),0)+1, 1 FROM t")
+                        .bind(task as i64)
+                        .bind(n2.load(Ordering::SeqCst) as i64)
+                        .execute(&mut **tx)
+                        .await
+                        .map_err(SqliteError::Sqlite)?;
+                    Ok(())
+                })
+                .await;
+            StOut::Unit(r)
+        });
+        (Helper { task, fut, release, n }, entered)
     }
 
     fn make(&self, task: u64, kind: &Kind, permit: &mut Option<Permit>) -> Fut {
@@ -328,7 +400,7 @@ impl Ctl {
                 if expect_progress && (!ran_rt || w0.elapsed() > Duration::from_millis(2)) {
                     // e.g. sqlx returns the pooled connection in a spawned task
                     ran_rt = true;
-                    self.quiesce();
+                    self.run_for(3); // bounded: a clean-up task may legitimately be stuck behind a query
                 } else {
                     std::thread::sleep(Duration::from_micros(100));
                 }
@@ -340,13 +412,21 @@ impl Ctl {
 struct TaskSt {
     permit: Option<Permit>,
     pending_begin: Option<Fut>,
-    /// writes of the current transaction (reference side)
-    ws: Vec<(u64, bool)>,
+    /// rows of the current transaction (reference side): (writer, n, bad)
+    ws: Vec<(u64, u64, bool)>,
+}
+
+/// A `tx()` call of a task that shares the transaction, parked inside its closure by the harness.
+struct Helper {
+    task: u64,
+    fut: Fut,
+    release: Arc<AtomicBool>,
+    n: Arc<AtomicU64>,
 }
 
 struct TxRec {
     task: u64,
-    ws: Vec<(u64, bool)>,
+    ws: Vec<(u64, u64, bool)>,
     /// Some(true) committed, Some(false) aborted, None = cancelled inside commit (decided from the table)
     fate: Option<bool>,
     /// index into `req` of the step to patch with +/-
@@ -356,15 +436,15 @@ struct TxRec {
 struct CtlResult {
     req: String,
     ans: String,
-    fail: Option<(String, String)>,
+    fail: Vec<(String, String)>,
     nt_commit: bool,
     abort_kinds: std::collections::BTreeSet<&'static str>,
     contended: bool,
     counts: Vec<String>,
 }
 
-fn run_ctl(steps: &[Step]) -> CtlResult {
-    let c = Ctl::new();
+fn run_ctl(steps: &[Step], file_db: bool) -> CtlResult {
+    let c = Ctl::new(file_db);
     // tokio context for everything that is dropped by hand below (TransactionPermit::drop and
     // sqlx' PoolConnection::drop both spawn a task)
     let handle = c.rt.handle().clone();
@@ -379,12 +459,15 @@ fn run_ctl(steps: &[Step]) -> CtlResult {
     let mut req: Vec<String> = vec![];
     let mut ans: Vec<String> = vec![];
     let mut txs: Vec<TxRec> = vec![];
-    let mut fail: Option<(String, String)> = None;
+    let mut fail: Vec<(String, String)> = vec![];
+    let mut helper: Option<Helper> = None; // query in flight of a task sharing the transaction
+    let mut zombie: Option<usize> = None; // TxRec of a transaction whose permit is gone but which is still in the slot
     let mut abort_kinds = std::collections::BTreeSet::new();
     let mut contended = false;
     let mut counts = vec![];
     let mut committed_rows = 0usize;
     let mut after_seen = 0usize; // clean-up tasks that had passed their last schedule point at the last `y`
+    let mut before_seen = 0usize; // … their first schedule point
     macro_rules! release {
         () => {
             owner = match queue.pop_front() {
@@ -395,8 +478,8 @@ fn run_ctl(steps: &[Step]) -> CtlResult {
     }
     macro_rules! bad {
         ($tag:expr, $what:expr) => {
-            if fail.is_none() {
-                fail = Some(($tag.to_string(), $what));
+            if fail.len() < 6 && !fail.iter().any(|f| f.0 == $tag) {
+                fail.push(($tag.to_string(), $what));
             }
         };
     }
@@ -410,7 +493,11 @@ fn run_ctl(steps: &[Step]) -> CtlResult {
         i += 1;
         if st.task == u64::MAX && !closing {
             closing = true;
-            // cancel whatever is still running, let the runtime finish, then prove liveness
+            // let a query in flight return, cancel whatever is still running, let the runtime finish,
+            // then prove liveness
+            if let Some(h) = &helper {
+                all.push(Step { task: h.task, kind: Kind::Finish(9000 + h.task), cancel: None });
+            }
             let ids: Vec<u64> = tasks.keys().cloned().collect();
             for t in ids {
                 let ts = &tasks[&t];
@@ -426,7 +513,90 @@ fn run_ctl(steps: &[Step]) -> CtlResult {
         let t = st.task;
         tasks.entry(t).or_insert(TaskSt { permit: None, pending_begin: None, ws: vec![] });
         let holds = tasks[&t].permit.is_some();
+        if helper.is_some() {
+            // with a query in flight everything that needs the slot lock would simply wait for it;
+            // the interesting steps are: dropping the permit, contending begins, the clean-up task
+            let fine = match &st.kind {
+                Kind::Drop | Kind::Quit | Kind::Panic | Kind::Finish(_) | Kind::Yield | Kind::YieldBefore | Kind::YieldAfter => true,
+                Kind::CancelTask => true,
+                Kind::Begin => !holds && st.cancel.is_none(),
+                _ => false,
+            };
+            if !fine || helper.as_ref().map(|h| h.task) == Some(t) && !matches!(st.kind, Kind::Finish(_) | Kind::Yield | Kind::YieldBefore | Kind::YieldAfter) {
+                continue;
+            }
+        }
         match (&st.kind, st.cancel) {
+            (Kind::Enter, _) => {
+                // only a task that neither holds a permit nor waits for one; one query at a time
+                if holds || tasks[&t].pending_begin.is_some() || helper.is_some() {
+                    continue;
+                }
+                if !slot_open && owner != Owner::Free {
+                    continue; // (nothing open but somebody about to open: keep the reference simple)
+                }
+                req.push(format!("{t}:e"));
+                let (mut h, entered) = c.make_helper(t);
+                let mut polls = 0;
+                let fut = std::mem::replace(&mut h.fut, Box::pin(async { StOut::Unit(Ok(())) }));
+                match c.drive(fut, Some(1), false, &mut polls) {
+                    Done::Pending(f) if entered.load(Ordering::SeqCst) => {
+                        h.fut = f;
+                        helper = Some(h);
+                        ans.push("ok".into());
+                        counts.push("shared-query-in-flight".into());
+                        if !slot_open {
+                            bad!("query-without-tx", format!("task {t}: tx() entered although no transaction is open"));
+                        }
+                    }
+                    Done::Pending(f) => {
+                        drop(f);
+                        ans.push("blk".into());
+                        bad!("query-blocked", format!("task {t}: tx() neither entered nor failed"));
+                    }
+                    Done::Completed(StOut::Unit(Err(e))) => {
+                        ans.push(err_word(&e).into());
+                        if slot_open {
+                            bad!("query-error", format!("task {t}: tx() on the open transaction failed: {e}"));
+                        }
+                    }
+                    _ => {
+                        ans.push("??".into());
+                        bad!("query-error", format!("task {t}: tx() behaved unexpectedly"));
+                    }
+                }
+            }
+            (Kind::Finish(n), _) => {
+                let Some(h) = helper.take() else { continue };
+                if h.task != t {
+                    helper = Some(h);
+                    continue;
+                }
+                req.push(format!("{t}:f{n}"));
+                h.n.store(*n, Ordering::SeqCst);
+                h.release.store(true, Ordering::SeqCst);
+                let mut polls = 0;
+                match c.drive(h.fut, None, true, &mut polls) {
+                    Done::Completed(StOut::Unit(Ok(()))) => {
+                        ans.push("ok".into());
+                        // the row belongs to the transaction that is (still) in the slot
+                        let holder = tasks.iter().find(|(_, ts)| ts.permit.is_some()).map(|(k, _)| *k);
+                        if let Some(hd) = holder {
+                            tasks.get_mut(&hd).unwrap().ws.push((t, *n, false));
+                        } else if let Some(z) = zombie {
+                            txs[z].ws.push((t, *n, false));
+                        }
+                    }
+                    Done::Completed(StOut::Unit(Err(e))) => {
+                        ans.push(err_word(&e).into());
+                        bad!("query-error", format!("task {t}: shared query failed: {e}"));
+                    }
+                    _ => {
+                        ans.push("HANG".into());
+                        bad!("query-hang", format!("task {t}: shared query does not return"));
+                    }
+                }
+            }
             (Kind::YieldBefore, _) | (Kind::YieldAfter, _) => {
                 // only meaningful while a clean-up task exists and has not got that far yet
                 if owner != Owner::Spawned {
@@ -434,7 +604,9 @@ fn run_ctl(steps: &[Step]) -> CtlResult {
                 }
                 let before = st.kind == Kind::YieldBefore;
                 let already_after = c.gate.seen.lock().unwrap().iter().filter(|p| **p == P_AFTER).count() > after_seen;
-                if already_after || (before && c.gate.parked.lock().unwrap().is_some()) {
+                let passed_before = c.gate.seen.lock().unwrap().iter().filter(|p| **p == P_BEFORE).count() > before_seen
+                    && *c.gate.parked.lock().unwrap() != Some(P_BEFORE);
+                if already_after || (before && (c.gate.parked.lock().unwrap().is_some() || passed_before)) {
                     continue;
                 }
                 req.push(if before { "yb".into() } else { "ya".into() });
@@ -448,6 +620,19 @@ fn run_ctl(steps: &[Step]) -> CtlResult {
                 let want = if before { P_BEFORE } else { P_AFTER };
                 let t0 = Instant::now();
                 let mut reached = false;
+                if !before && helper.is_some() {
+                    // the clean-up task has to wait for the query in flight: it must NOT get there
+                    c.run_for(40);
+                    if *c.gate.parked.lock().unwrap() == Some(P_AFTER) {
+                        ans.push("ok".into());
+                        slot_open = false;
+                        bad!("cleanup-ignores-query-in-flight", "the clean-up task of a dropped permit got past taking the transaction while a tx() query sharing that transaction was still in flight".to_string());
+                    } else {
+                        ans.push("blk".into());
+                    }
+                    c.gate.hold_before.store(true, Ordering::SeqCst);
+                    continue;
+                }
                 while t0.elapsed() < Duration::from_secs(5) {
                     c.quiesce();
                     if *c.gate.parked.lock().unwrap() == Some(want) {
@@ -455,13 +640,36 @@ fn run_ctl(steps: &[Step]) -> CtlResult {
                         break;
                     }
                 }
+                c.gate.hold_before.store(true, Ordering::SeqCst);
                 if !before {
                     slot_open = false; // rolled back
+                    zombie = None;
                 }
                 ans.push(if reached { "ok".into() } else { "HANG".into() });
                 if !reached {
                     bad!("cleanup-never-parks", format!("the clean-up task did not reach {want}"));
                 }
+            }
+            (Kind::Yield, _) if helper.is_some() && owner == Owner::Spawned => {
+                // the clean-up task must wait for the query in flight
+                req.push("y".into());
+                c.gate.hold_before.store(false, Ordering::SeqCst);
+                c.gate.hold_after.store(false, Ordering::SeqCst);
+                let done = c.run_for(40);
+                c.gate.hold_before.store(true, Ordering::SeqCst);
+                if done {
+                    ans.push("ok".into());
+                    after_seen = c.gate.seen.lock().unwrap().iter().filter(|p| **p == P_AFTER).count();
+                before_seen = c.gate.seen.lock().unwrap().iter().filter(|p| **p == P_BEFORE).count();
+                    release!();
+                    slot_open = false;
+                    bad!("cleanup-ignores-query-in-flight", "the clean-up task of a dropped permit finished (permit released) while a tx() query sharing that transaction was still in flight".to_string());
+                } else {
+                    ans.push("blk".into());
+                }
+            }
+            (Kind::Yield, _) if helper.is_some() => {
+                continue; // nothing spawned by the store to run; keep the query in flight
             }
             (Kind::Yield, _) => {
                 req.push("y".into());
@@ -475,10 +683,13 @@ fn run_ctl(steps: &[Step]) -> CtlResult {
                     }
                     c.quiesce()
                 };
+                c.gate.hold_before.store(true, Ordering::SeqCst);
                 after_seen = c.gate.seen.lock().unwrap().iter().filter(|p| **p == P_AFTER).count();
+                before_seen = c.gate.seen.lock().unwrap().iter().filter(|p| **p == P_BEFORE).count();
                 if owner == Owner::Spawned {
                     release!();
                     slot_open = false;
+                    zombie = None;
                 }
                 ans.push(if ok { "ok".into() } else { "HANG".into() });
                 if !ok {
@@ -617,7 +828,7 @@ fn run_ctl(steps: &[Step]) -> CtlResult {
                     Done::Completed(StOut::Unit(Ok(()))) => {
                         req.push(format!("{t}:{w}{n}"));
                         ans.push("ok".into());
-                        tasks.get_mut(&t).unwrap().ws.push((*n, *b));
+                        tasks.get_mut(&t).unwrap().ws.push((t, *n, *b));
                         if canc.is_some() {
                             all.insert(i, Step { task: t, kind: Kind::CancelTask, cancel: None });
                         }
@@ -637,6 +848,7 @@ fn run_ctl(steps: &[Step]) -> CtlResult {
                         req.push(format!("{t}:{w}{n}/{polls}"));
                         ans.push("cx".into());
                         txs.push(TxRec { task: t, ws: std::mem::take(&mut ts.ws), fate: Some(false), patch: None });
+                        zombie = Some(txs.len() - 1);
                         owner = Owner::Spawned;
                         abort_kinds.insert("cancel-in-write");
                     }
@@ -671,7 +883,7 @@ fn run_ctl(steps: &[Step]) -> CtlResult {
                             sums.extend(more);
                         }
                         if !sums.iter().any(|x| exp + x == n as usize) {
-                            bad!("dirty-read", format!("task {t}: sees {n} rows inside its transaction, expected {exp} (committed + own)"));
+                            bad!("isolation", format!("task {t}: sees {n} rows inside its transaction, expected {exp} (committed rows + rows of this transaction)"));
                         }
                     }
                     Done::Completed(StOut::Count(Err(e))) => {
@@ -693,7 +905,7 @@ fn run_ctl(steps: &[Step]) -> CtlResult {
                 let letter = if is_commit { 'C' } else { 'R' };
                 let ts = tasks.get_mut(&t).unwrap();
                 let ws = std::mem::take(&mut ts.ws);
-                let has_bad = ws.iter().any(|w| w.1);
+                let has_bad = ws.iter().any(|w| w.2);
                 let fut = c.make(t, &st.kind, &mut ts.permit);
                 let mut polls = 0;
                 let d = match canc {
@@ -731,6 +943,7 @@ fn run_ctl(steps: &[Step]) -> CtlResult {
                         if polls == 0 {
                             req.push(format!("{t}:{letter}/0"));
                             txs.push(TxRec { task: t, ws, fate: Some(false), patch: None });
+                            zombie = Some(txs.len() - 1);
                         } else if is_commit {
                             req.push(format!("{t}:C/{polls}?"));
                             if !has_bad {
@@ -788,6 +1001,7 @@ fn run_ctl(steps: &[Step]) -> CtlResult {
                     }
                 }
                 txs.push(TxRec { task: t, ws, fate: Some(false), patch: None });
+                zombie = Some(txs.len() - 1);
                 owner = Owner::Spawned;
                 abort_kinds.insert(kind);
             }
@@ -809,6 +1023,7 @@ fn run_ctl(steps: &[Step]) -> CtlResult {
                     drop(ts.permit.take());
                     let ws = std::mem::take(&mut ts.ws);
                     txs.push(TxRec { task: t, ws, fate: Some(false), patch: None });
+                    zombie = Some(txs.len() - 1);
                     owner = Owner::Spawned;
                     abort_kinds.insert("cancel-between-statements");
                 }
@@ -826,7 +1041,7 @@ fn run_ctl(steps: &[Step]) -> CtlResult {
     let present: std::collections::BTreeSet<(i64, i64)> = rows.iter().map(|r| (r.0, r.1)).collect();
     // resolve cancelled commits; all-or-nothing
     for tx in txs.iter_mut() {
-        let n_present = tx.ws.iter().filter(|w| present.contains(&(tx.task as i64, w.0 as i64))).count();
+        let n_present = tx.ws.iter().filter(|w| present.contains(&(w.0 as i64, w.1 as i64))).count();
         if n_present != 0 && n_present != tx.ws.len() {
             bad!("partial-transaction", format!("task {}: {} of {} rows of one transaction are in the table", tx.task, n_present, tx.ws.len()));
         }
@@ -846,7 +1061,7 @@ fn run_ctl(steps: &[Step]) -> CtlResult {
             }
             Some(false) => {
                 if n_present != 0 {
-                    bad!("aborted-rows-present", format!("task {}: {} rows of an aborted transaction are in the table", tx.task, n_present));
+                    bad!("aborted-rows-committed", format!("task {}: {} rows of an aborted transaction are in the table", tx.task, n_present));
                 }
             }
         }
@@ -861,7 +1076,7 @@ fn run_ctl(steps: &[Step]) -> CtlResult {
     for tx in &txs {
         if tx.fate == Some(true) {
             for w in &tx.ws {
-                expect.push((tx.task as i64, w.0 as i64));
+                expect.push((w.0 as i64, w.1 as i64));
             }
         }
     }
@@ -877,8 +1092,10 @@ fn run_ctl(steps: &[Step]) -> CtlResult {
     }
     let db = if got.is_empty() { "db=-".to_string() } else { format!("db={}", got.iter().map(|r| format!("{}.{}", r.0, r.1)).collect::<Vec<_>>().join(",")) };
     let nt_commit = txs.iter().any(|t| t.fate == Some(true) && !t.ws.is_empty());
+    drop(helper);
     drop(tasks);
     c.quiesce();
+    let file = c.file.clone();
     // the store (and a transaction a defective protocol may have left in it) goes away inside the
     // runtime context
     p2panda_store::sqlite::verif_hooks::set(None);
@@ -887,8 +1104,13 @@ fn run_ctl(steps: &[Step]) -> CtlResult {
     rt.block_on(async { tokio::task::yield_now().await });
     drop(_ctx);
     drop(rt);
+    if let Some(f) = file {
+        for suffix in ["", "-journal", "-wal", "-shm"] {
+            let _ = std::fs::remove_file(format!("{f}{suffix}"));
+        }
+    }
     CtlResult {
-        req: format!("ctl {}", req.join(" ")),
+        req: format!("{} {}", if file_db { "ctlf" } else { "ctl" }, req.join(" ")),
         ans: format!("{} | {}", ans.join(" "), db),
         fail,
         nt_commit,
@@ -899,7 +1121,20 @@ fn run_ctl(steps: &[Step]) -> CtlResult {
 }
 
 fn emit_ctl(out: &mut Out, steps: &[Step], origin: &str) -> bool {
-    let r = match std::panic::catch_unwind(AssertUnwindSafe(|| run_ctl(steps))) {
+    emit_ctl_on(out, steps, origin, false)
+}
+
+fn emit_ctl_on(out: &mut Out, steps: &[Step], origin: &str, file_db: bool) -> bool {
+    let t_case = Instant::now();
+    let res = emit_ctl_inner(out, steps, origin, file_db);
+    if std::env::var("C10_TIMING").is_ok() && t_case.elapsed() > Duration::from_millis(500) {
+        eprintln!("slow case {:?} origin={origin} file={file_db} case#{}", t_case.elapsed(), out.cases);
+    }
+    res
+}
+
+fn emit_ctl_inner(out: &mut Out, steps: &[Step], origin: &str, file_db: bool) -> bool {
+    let r = match std::panic::catch_unwind(AssertUnwindSafe(|| run_ctl(steps, file_db))) {
         Ok(r) => r,
         Err(_) => {
             p2panda_store::sqlite::verif_hooks::set(None);
@@ -913,6 +1148,7 @@ fn emit_ctl(out: &mut Out, steps: &[Step], origin: &str) -> bool {
     let nt = r.nt_commit && r.abort_kinds.len() >= 2 && r.contended;
     let n = out.case(&r.req, &r.ans, nt);
     out.count(&format!("origin={origin}"));
+    out.count(if file_db { "store=file-4-connections" } else { "store=in-memory" });
     for k in &r.abort_kinds {
         out.count(&format!("abort={k}"));
     }
@@ -922,18 +1158,18 @@ fn emit_ctl(out: &mut Out, steps: &[Step], origin: &str) -> bool {
     if r.contended {
         out.count("contended-begin");
     }
-    if let Some((tag, what)) = r.fail {
-        out.oracle_fail(n, &tag, &what, &r.req, &r.ans);
-        return true;
+    for (tag, what) in &r.fail {
+        out.oracle_fail(n, tag, what, &r.req, &r.ans);
     }
-    false
+    !r.fail.is_empty()
 }
 
 /// Parse a `ctl` request back into steps (replay). The closing steps the harness appends itself
 /// are recognised and dropped (task 99 and everything after the last generated step is redone).
 fn parse_ctl(req: &str) -> Option<Vec<Step>> {
     let mut it = req.split_whitespace();
-    if it.next()? != "ctl" {
+    let mode = it.next()?;
+    if mode != "ctl" && mode != "ctlf" {
         return None;
     }
     let mut v = vec![];
@@ -965,6 +1201,8 @@ fn parse_ctl(req: &str) -> Option<Vec<Step>> {
             'Q' => Kind::Quit,
             'P' => Kind::Panic,
             'X' => Kind::CancelTask,
+            'e' => Kind::Enter,
+            'f' => Kind::Finish(body[1..].parse().ok()?),
             'w' => Kind::Write(body[1..].parse().ok()?, false),
             'b' => Kind::Write(body[1..].parse().ok()?, true),
             _ => return None,
@@ -1059,6 +1297,72 @@ fn park_matrix() -> Vec<Vec<Step>> {
     v
 }
 
+/// Two futures share one transaction (the pattern documented on `SqliteStore`): task 7 is inside a `tx()`
+/// query while the holder (task 0) loses / drops its permit. The clean-up task has to wait for that query;
+/// contenders stay blocked; afterwards the aborted rows are gone and the next writers work normally.
+fn shared_matrix() -> Vec<Vec<Step>> {
+    let st = |task: u64, kind: Kind| Step { task, kind, cancel: None };
+    let mut v = vec![];
+    let prelude = |s: &mut Vec<Step>| {
+        s.push(st(5, Kind::Begin));
+        s.push(st(5, Kind::Write(50, false)));
+        s.push(st(5, Kind::Commit));
+        s.push(st(0, Kind::Begin));
+        s.push(st(0, Kind::Write(1, false)));
+        s.push(st(7, Kind::Enter));
+    };
+    let contender = |s: &mut Vec<Step>| {
+        s.push(st(1, Kind::Begin));
+        s.push(st(1, Kind::Read));
+        s.push(st(1, Kind::Write(3, false)));
+        s.push(st(1, Kind::Commit));
+        s.push(st(2, Kind::Begin));
+        s.push(st(2, Kind::Read));
+        s.push(st(2, Kind::Commit));
+    };
+    for abort in [Kind::Drop, Kind::Quit, Kind::Panic, Kind::CancelTask] {
+        // (1) clean-up parked before / tried after, contenders polled at every position
+        let mut s = vec![];
+        prelude(&mut s);
+        s.push(st(0, abort.clone()));
+        s.push(st(1, Kind::Begin));
+        s.push(st(0, Kind::YieldBefore));
+        s.push(st(1, Kind::Begin));
+        s.push(st(0, Kind::YieldAfter)); // must stay behind the query in flight
+        s.push(st(1, Kind::Begin));
+        s.push(st(2, Kind::Begin));
+        s.push(st(7, Kind::Finish(2)));
+        s.push(st(0, Kind::YieldAfter));
+        s.push(st(1, Kind::Begin));
+        s.push(st(0, Kind::Yield));
+        contender(&mut s);
+        v.push(s);
+        // (2) the runtime runs freely while the query is in flight, a writer begins in that window
+        let mut s = vec![];
+        prelude(&mut s);
+        s.push(st(0, abort.clone()));
+        s.push(st(0, Kind::Yield)); // clean-up must block on the slot lock
+        s.push(st(1, Kind::Begin)); // must stay blocked
+        s.push(st(7, Kind::Finish(2)));
+        s.push(st(0, Kind::Yield));
+        contender(&mut s);
+        v.push(s);
+    }
+    // (3) the shared query returns first, the holder commits both rows / rolls both back
+    for end in [Kind::Commit, Kind::Rollback, Kind::Drop] {
+        let mut s = vec![];
+        prelude(&mut s);
+        s.push(st(1, Kind::Begin));
+        s.push(st(7, Kind::Finish(2)));
+        s.push(st(0, Kind::Read));
+        s.push(st(0, end.clone()));
+        s.push(st(0, Kind::Yield));
+        contender(&mut s);
+        v.push(s);
+    }
+    v
+}
+
 fn abort_kinds_matrix() -> Vec<Vec<Step>> {
     let mut v = vec![];
     for end in [Kind::Commit, Kind::Rollback, Kind::Drop, Kind::Quit, Kind::Panic, Kind::CancelTask] {
@@ -1099,6 +1403,40 @@ fn gen_ctl(rng: &mut Rng) -> Vec<Step> {
     let mut next_n = 1u64;
     for _ in 0..len {
         let c = |cancel_p: u64, rng: &mut Rng| -> Option<u32> { if rng.chance(cancel_p, 100) { Some(rng.below(5) as u32) } else { None } };
+        if holder.is_some() && rng.chance(1, 12) {
+            // a task sharing the transaction starts a query and stays inside it for a while
+            steps.push(Step { task: 7, kind: Kind::Enter, cancel: None });
+            if rng.chance(1, 2) {
+                let h = holder.unwrap();
+                let k = match rng.below(4) {
+                    0 => Kind::Drop,
+                    1 => Kind::Quit,
+                    2 => Kind::Panic,
+                    _ => Kind::CancelTask,
+                };
+                steps.push(Step { task: h, kind: k, cancel: None });
+                holder = None;
+                for _ in 0..rng.range(0, 3) {
+                    let k = match rng.below(4) {
+                        0 => Kind::YieldBefore,
+                        1 => Kind::YieldAfter,
+                        2 => Kind::Yield,
+                        _ => Kind::Begin,
+                    };
+                    steps.push(Step { task: rng.below(ntasks), kind: k, cancel: None });
+                }
+                next_n += 1;
+                steps.push(Step { task: 7, kind: Kind::Finish(next_n), cancel: None });
+                spawned = true;
+            } else {
+                for _ in 0..rng.range(0, 2) {
+                    steps.push(Step { task: rng.below(ntasks), kind: Kind::Begin, cancel: None });
+                }
+                next_n += 1;
+                steps.push(Step { task: 7, kind: Kind::Finish(next_n), cancel: None });
+            }
+            continue;
+        }
         match holder {
             Some(h) if !rng.chance(1, 4) => {
                 // the holder moves
@@ -1389,7 +1727,7 @@ fn run_free(rng: &mut Rng, out: &mut Out, stress: bool) -> bool {
                         fail = Some(("committed-rows-missing".into(), format!("task {t}: commit returned Ok but {n_present} of {} rows are there", l.writes_done.len())));
                     }
                     if !ok && n_present != 0 {
-                        fail = Some(("aborted-rows-present".into(), format!("task {t}: commit failed but {n_present} rows are there")));
+                        fail = Some(("aborted-rows-committed".into(), format!("task {t}: commit failed but {n_present} rows are there")));
                     }
                     if ok == has_bad {
                         fail = Some(("commit-constraint".into(), format!("task {t}: commit ok={ok} with bad write={has_bad}")));
@@ -1430,7 +1768,7 @@ fn run_free(rng: &mut Rng, out: &mut Out, stress: bool) -> bool {
         }
         let aborted = !matches!((l.end_started, l.end_result), (Some('C'), Some(true)) | (Some('C'), None));
         if live && aborted && n_present != 0 && fail.is_none() {
-            fail = Some(("aborted-rows-present".into(), format!("task {t}: {n_present} rows of an aborted transaction are in the table")));
+            fail = Some(("aborted-rows-committed".into(), format!("task {t}: {n_present} rows of an aborted transaction are in the table")));
         }
     }
     for (k, r) in rows.iter().enumerate() {
@@ -1472,7 +1810,7 @@ fn main() {
         let req = v["request"].as_str().unwrap_or("").to_string();
         match parse_ctl(&req) {
             Some(steps) => {
-                emit_ctl(&mut out, &steps, "replay");
+                emit_ctl_on(&mut out, &steps, "replay", req.starts_with("ctlf"));
             }
             None => {
                 // a `free` case cannot be replayed deterministically: re-run free cases with the same seed family
@@ -1489,7 +1827,7 @@ fn main() {
     }
     let mut rng = Rng::new(args.seed);
     let (max_k, n_ctl, n_free, n_stress) = match args.tier {
-        Tier::Quick => (3, 70, 30, 30),
+        Tier::Quick => (2, 50, 20, 20),
         Tier::Thorough => (6, 1800, 700, 700),
         Tier::Search => (4, 800, 400, 800),
     };
@@ -1517,6 +1855,20 @@ fn main() {
             failures += 1;
         }
     }
+    for file_db in [false, true] {
+        let mut local = 0;
+        for s in shared_matrix() {
+            if local < 3 && emit_ctl_on(&mut out, &s, "shared-transaction-matrix", file_db) {
+                failures += 1;
+                local += 1;
+            }
+        }
+    }
+    for s in abort_kinds_matrix().into_iter().step_by(2).chain(park_matrix().into_iter().step_by(4)) {
+        if failures < 8 && emit_ctl_on(&mut out, &s, "file-db-matrix", true) {
+            failures += 1;
+        }
+    }
     for end in [Kind::Commit, Kind::Rollback] {
         for s in cancel_matrix(end.clone(), max_k) {
             if failures < 6 && emit_ctl(&mut out, &s, "cancel-matrix") {
@@ -1529,7 +1881,8 @@ fn main() {
             break;
         }
         let s = gen_ctl(&mut rng);
-        if emit_ctl(&mut out, &s, "ctl-random") {
+        let file_db = rng.chance(1, 8);
+        if emit_ctl_on(&mut out, &s, "ctl-random", file_db) {
             failures += 1;
         }
     }
@@ -1550,7 +1903,7 @@ fn main() {
         }
     }
     out.finish(
-        "ctl case = hand-polled schedule of 2-6 tasks over one SqliteStore::temporary(): each task's begin / write / dirty read / commit / rollback / drop(permit) / `?` return / panic is a future polled by the harness, the spawned rollback task only runs at explicit `y` steps and can be parked through the verif hook before it takes the transaction (`yb`) and after the rollback but before it releases the permit (`ya`) (park matrix: every abort kind x both park positions x contender queued before/after), a statement may be dropped after its k-th poll (k = 0..3, thorough 0..6; matrix: every statement of a 6-statement transaction x every k, for commit and rollback endings) and a contending begin is observed before and after; every observation and the final table (ord column = serialisation order recorded by SQLite itself) are compared. free case = 2-8 tokio tasks (multi-thread or current-thread runtime) with generated transaction scripts and random JoinHandle::abort(); final table compared with the model run on the observed serial order; a fresh begin()+commit() must succeed afterwards. non-trivial = case with >= 1 committed non-empty transaction, >= 2 different abort kinds and (ctl) a begin observed blocked / (free) >= 2 tasks",
+        "ctl case = hand-polled schedule of 2-6 tasks over one SqliteStore::temporary(): each task's begin / write / dirty read / commit / rollback / drop(permit) / `?` return / panic is a future polled by the harness, the spawned rollback task only runs at explicit `y` steps and can be parked through the verif hook before it takes the transaction (`yb`) and after the rollback but before it releases the permit (`ya`) (park matrix: every abort kind x both park positions x contender queued before/after), a statement may be dropped after its k-th poll (k = 0..3, thorough 0..6; matrix: every statement of a 6-statement transaction x every k, for commit and rollback endings) and a contending begin is observed before and after; shared-transaction matrix (in-memory and file-backed 4-connection store): a second task is parked inside a tx() query on the open transaction while the holder drops its permit (D/Q/P/X), the clean-up task is run / parked (it must wait for the query), contenders begin in the window, then read/write/commit; every observation and the final table (ord column = serialisation order recorded by SQLite itself) are compared. free case = 2-8 tokio tasks (multi-thread or current-thread runtime) with generated transaction scripts and random JoinHandle::abort(); final table compared with the model run on the observed serial order; a fresh begin()+commit() must succeed afterwards. non-trivial = case with >= 1 committed non-empty transaction, >= 2 different abort kinds and (ctl) a begin observed blocked / (free) >= 2 tasks",
         false,
     );
 }
